@@ -33,6 +33,30 @@ def runOps (limit : Nat) (ops : List String) : List String × Nat × Nat :=
       | _ => (st, acc.2 ++ ["-"])) (init, [])
   (r.2, r.1.inb.avail, r.1.outb.avail)
 
+/-- the property's own accounting on the IMPLEMENTATION's answers: a grant takes a slot of its pool, the first release of a
+    granted permit gives it back, nothing else changes anything. Returns (grant given while `limit` were out, slots out inbound,
+    slots out outbound). -/
+def account (limit : Nat) (ops res : List String) : Bool × Nat × Nat :=
+  let r := (ops.zip res).foldl (fun (acc : Bool × Nat × Nat × List (Bool × Bool × Bool)) p =>
+    let (over, outIn, outOut, held) := acc
+    let op := p.1
+    if op == "ai" || op == "ao" then
+      let inbound := op == "ai"
+      let granted := p.2 == "1"
+      let out := if inbound then outIn else outOut
+      let over' := over || (granted && out ≥ limit)
+      let held' := held ++ [(inbound, granted, false)]
+      if granted then (if inbound then (over', outIn + 1, outOut, held') else (over', outIn, outOut + 1, held'))
+      else (over', outIn, outOut, held')
+    else
+      let k := ((op.drop 1).toNat?).getD 0
+      match held[k]? with
+      | some (inbound, true, false) =>
+        let held' := held.set k (inbound, true, true)
+        if inbound then (over, outIn - 1, outOut, held') else (over, outIn, outOut - 1, held')
+      | _ => acc) (false, 0, 0, [])
+  (r.1, r.2.1, r.2.2.1)
+
 def step (toks : List String) (impl : String) : Res :=
   let it := words impl
   match toks.head? with
@@ -41,8 +65,12 @@ def step (toks : List String) (impl : String) : Res :=
     let ops := ((kv toks "ops").splitOn ",").drop 1
     let r := runOps limit ops
     let m := s!"res={",".intercalate ("-" :: r.1)} free_in={r.2.1} free_out={r.2.2}"
-    -- bounded: never more grants outstanding than the limit; all released ⇒ all free (checked through the counts)
-    { model := m, monitor := if kvNat it "free_in" > limit || kvNat it "free_out" > limit then ["held_le_limit"] else [],
+    -- bounded: never more grants outstanding than the limit; every slot comes back exactly once (a second release of a
+    -- permit changes nothing, in particular it does not free a slot somebody else holds)
+    let a := account limit ops (((kv it "res").splitOn ",").drop 1)
+    let mon := (if kvNat it "free_in" > limit || kvNat it "free_out" > limit || a.1 then ["held_le_limit"] else [])
+      ++ (if kvNat it "free_in" + a.2.1 != limit || kvNat it "free_out" + a.2.2 != limit then ["slot_returned_exactly_once"] else [])
+    { model := m, monitor := mon,
       tags := ["permitops", s!"limit{limit}"], nontrivial := ops.length > 3 }
   | some "procoffer" =>
     let limit := kvNat toks "limit"
